@@ -1,5 +1,5 @@
 """C20 — iv_inotify routes events to their watch; unregistering in handlers is safe."""
-from ..core import (AnalysisBroken, canon, strip, last_member, must_pass, relpath, norm_cond, walk, forward)
+from ..core import (names_of, same_value, AnalysisBroken, canon, strip, last_member, must_pass, relpath, norm_cond, walk, forward)
 from .. import generic
 from ..analyses import (is_call, holding, atoms_reading, path_to, describe, exits_of, callback_kind,
                         stale_after_callback, loops, innermost_loop)
